@@ -347,21 +347,36 @@ package cputensor
 //@   loop 0 decreases swapPos(i, rank(t)) + 1
 
 // LEX (row-major positions). val(J, S, k) is the Horner value of the digits J[0..k) over the sizes S on top of the overflow
-// digit J[-1] (domain function, recursive definition); flat(t, p) is *defined* as the element whose index has value p.
-// valExt is proved; the three arithmetic facts about mixed-radix numbers below are paper lemmas (the induction step of
-// valSucc did not discharge on any back end, DESIGN.md 0.7): the odometer successor adds one, a value is bounded by
-// the sizes, every position below the number of elements is the value of an index in bounds.
+// digit J[-1]; flat(t, p) is *defined* as the element whose index has value p; unval(t, p) is *defined* digit by digit
+// (div / mod). Everything else is proved by induction on the number of digits: val depends only on its digits
+// (valExt), the odometer successor adds one (valSucc), a value is bounded by the sizes (valBound), un-flattening inverts
+// val (unvalOK, unflatten), deleting a digit of size 1 keeps the value (valDel). The recursive definitions are named
+// axioms handed only to the lemmas that unfold them: as always-on definitions they are matching loops (DESIGN.md 0.7).
 //@ axiom valDef: forallJ(J, forallJ(S, forallI(k, val(J, S, k) == ite(k <= 0, J[0-1], val(J, S, k-1) * S[k-1] + J[k-1]))))
 //@ define valExtBody(k) := forallJ(A, forallJ(B, forallJ(S, forallJ(S2, imp(sameOn(A, B, 0-1, k) && sameOn(S, S2, 0, k), val(A, S, k) == val(B, S2, k))))))
 //@ induct valExt: up valExtBody @uses valDef
 //@ define valZeroBody(k) := forallJ(J, forallJ(S, imp(forall(j, 0-1, k, J[j] == 0), val(J, S, k) == 0)))
 //@ induct valZero: up valZeroBody @uses valDef
-//@ axiom flatDef: forallT(t, forallJ(J, imp(inb(t, J) && J[0-1] == 0, flat(t, val(J, shp(t), rank(t))) == el(t, J))))
-//@ axiom valSucc: forallJ(A, forallJ(B, forallJ(S, forallI(k, imp(k >= 0 && odoK(A, B, S, k) && validUpTo(A, S, k), val(B, S, k) == val(A, S, k) + 1)))))
-//@ axiom valBound: forallJ(J, forallJ(S, forallI(k, imp(k >= 0 && validUpTo(J, S, k) && forall(j, 0, k, S[j] >= 1),
-//@                 imp(J[0-1] == 0, 0 <= val(J, S, k) && val(J, S, k) < prod(S, 0, k)) && imp(J[0-1] >= 1, val(J, S, k) >= prod(S, 0, k))))))
-//@ axiom unflatten: forallT(t, forallI(p, imp(0 <= p && p < nelems(t), inb(t, unval(t, p)) && unval(t, p)[0-1] == 0 && val(unval(t, p), shp(t), rank(t)) == p)))
+//@ axiom flatDef: forallT(t, forallJ(J, imp(inb(t, J), flat(t, val(upd(J, 0-1, 0), shp(t), rank(t))) == el(t, J))))
+//@ lemma allMaxShrink: forallJ(A, forallJ(S, forallI(j, forallI(k, imp(allMax(A, S, j, k) && j < k-1, allMax(A, S, j, k-1) && A[k-1] == S[k-1] - 1)))))
+//@ lemma allMaxGrow: forallJ(A, forallJ(S, forallI(j, forallI(k, imp(allMax(A, S, j, k-1) && A[k-1] == S[k-1] - 1, allMax(A, S, j, k))))))
+//@ lemma odoShrink: forallJ(A, forallJ(B, forallJ(S, forallI(k, imp(odoK(A, B, S, k) && k >= 1 && A[k-1] == S[k-1] - 1, odoK(A, B, S, k-1) && B[k-1] == 0))))) @uses allMaxShrink, allMaxGrow
+//@ lemma odoStay: forallJ(A, forallJ(B, forallJ(S, forallI(k, imp(odoK(A, B, S, k) && k >= 1 && A[k-1] < S[k-1] - 1, sameOn(A, B, 0-1, k-1) && B[k-1] == A[k-1] + 1))))) @uses allMaxShrink
+//@ define valSuccBody(k) := forallJ(A, forallJ(B, forallJ(S, imp(odoK(A, B, S, k) && validUpTo(A, S, k), val(B, S, k) == val(A, S, k) + 1))))
+//@ induct valSucc: up valSuccBody @uses valDef, valExt, odoShrink, odoStay
+//@ define valBoundBody(k) := forallJ(J, forallJ(S, imp(validUpTo(J, S, k) && forall(j, 0, k, S[j] >= 1), imp(J[0-1] == 0, 0 <= val(J, S, k) && val(J, S, k) < prod(S, 0, k)) && imp(J[0-1] >= 1, val(J, S, k) >= prod(S, 0, k)))))
+//@ induct valBound: up valBoundBody @uses valDef
+// well-definedness of flat: two indices in bounds with the same value are the same index
+//@ define valInjBody(k) := forallJ(J, forallJ(K, forallJ(S, imp(validUpTo(J, S, k) && validUpTo(K, S, k) && forall(j, 0, k, S[j] >= 1) && val(J, S, k) == val(K, S, k), sameOn(J, K, 0-1, k)))))
+//@ induct valInj: up valInjBody @uses valDef
+//@ axiom unvalDef: forallJ(S, forallI(k, forallI(p, unvalK(S, k, p) == ite(k <= 0, upd(zeroIdx(), 0-1, p), upd(unvalK(S, k-1, p / S[k-1]), k-1, p % S[k-1])))))
+//@ define unvalOKBody(k) := forallJ(S, forallI(p, imp(p >= 0 && forall(j, 0, k, S[j] >= 1), val(unvalK(S, k, p), S, k) == p && validUpTo(unvalK(S, k, p), S, k) && unvalK(S, k, p)[0-1] >= 0)))
+//@ induct unvalOK: up unvalOKBody @uses valDef, valExt, unvalDef
 //@ lemma prodShp: forallT(t, imp(t != nil && published(t), prod(shp(t), 0, rank(t)) == nelems(t))) @uses dimsLink
+//@ axiom unvalT: forallT(t, forallI(p, unval(t, p) == unvalK(shp(t), rank(t), p)))
+//@ lemma unflatten: forallT(t, forallI(p, imp(t != nil && published(t) && 0 <= p && p < nelems(t), inb(t, unval(t, p)) && val(upd(unval(t, p), 0-1, 0), shp(t), rank(t)) == p))) @uses unvalT, unvalOK, valBound, prodShp, valExt
+//@ define valDelBody(k) := forallJ(J, forallJ(S, forallI(d, imp(0 <= d && d < k && S[d] == 1 && J[d] == 0, val(J, S, k) == val(del(J, d), del(S, d), k - 1)))))
+//@ induct valDel: up valDelBody @uses valDef, valExt
 
 //@ func CPUTensor.reshape
 //@   requires published(t) && forall(k, 0, len(shape), shape[k] > 0) && prod(shape, 0, len(shape)) == nelems(t)
@@ -369,10 +384,10 @@ package cputensor
 //@   uses dimsLink, filledWF, filledEl, wfExt
 //@   have genFloat(elemGen) && hasShape(o, shape) && nelems(o) == nelems(t)
 //@   have forallJ(J, imp(inb(o, J), el(o, J) == fval(genAt(elemGen, mix(zeroIdx(), J, 0, len(shape))))))
-//@   have forallJ(J, imp(inb(o, J) && J[0-1] == 0, el(o, J) == flat(t, val(J, shp(o), rank(o))))) @uses valExt
-//@   have forall(p, 0, nelems(t), inb(o, unval(o, p)) && unval(o, p)[0-1] == 0 && val(unval(o, p), shp(o), rank(o)) == p) @uses unflatten
+//@   have forallJ(J, imp(inb(o, J), el(o, J) == flat(t, val(upd(J, 0-1, 0), shp(o), rank(o))))) @uses valExt
+//@   have forall(p, 0, nelems(t), inb(o, unval(o, p)) && val(upd(unval(o, p), 0-1, 0), shp(o), rank(o)) == p) @uses unflatten
 //@   have forall(p, 0, nelems(t), el(o, unval(o, p)) == flat(t, p))
-//@   have forall(p, 0, nelems(t), flat(o, p) == el(o, unval(o, p))) @uses flatDef
+//@   have forall(p, 0, nelems(t), flat(o, p) == el(o, unval(o, p))) @uses flatDef, valInj
 //@   have forall(p, 0, nelems(t), flat(o, p) == flat(t, p))
 //@   returns fresh
 //@   ensures o != nil && hasShape(o, shape) && nelems(o) == nelems(t) && forall(p, 0, nelems(t), flat(o, p) == flat(t, p))
@@ -462,10 +477,20 @@ package cputensor
 
 // LEX (paper lemma, DESIGN.md section 8): inserting or removing a dimension of size 1 does not change the row-major
 // position of any element, so the flat view and the index view of UnSqueeze / Squeeze agree.
-//@ axiom lexUnsq: forallT(o, forallT(t, forallI(d, imp(unsqShape(o, t, d) && nelems(o) == nelems(t) && forall(p, 0, nelems(t), flat(o, p) == flat(t, p)),
-//@                forallJ(J, imp(inb(o, J), el(o, J) == el(t, del(J, d))))))))
-//@ axiom lexSq: forallT(o, forallT(t, forallI(d, imp(redShape(o, t, d) && dim(t, d) == 1 && nelems(o) == nelems(t) && forall(p, 0, nelems(t), flat(o, p) == flat(t, p)),
-//@                forallJ(J, imp(inb(o, J), el(o, J) == el(t, ins(J, d, 0))))))))
+//@ lemma inbValid: forallT(t, forallJ(J, imp(inb(t, J), validUpTo(upd(J, 0-1, 0), shp(t), rank(t)) && forall(j, 0, rank(t), shp(t)[j] >= 1))))
+//@ lemma unsqVal1: forallT(o, forallT(t, forallI(d, forallJ(J, imp(unsqShape(o, t, d) && 0 <= d && d <= rank(t) && inb(o, J),
+//@                val(upd(J, 0-1, 0), shp(o), rank(o)) == val(del(upd(J, 0-1, 0), d), del(shp(o), d), rank(o) - 1)))))) @uses valDel
+//@ lemma unsqVal: forallT(o, forallT(t, forallI(d, forallJ(J, imp(unsqShape(o, t, d) && 0 <= d && d <= rank(t) && inb(o, J),
+//@                val(upd(J, 0-1, 0), shp(o), rank(o)) == val(upd(del(J, d), 0-1, 0), shp(t), rank(t))))))) @uses unsqVal1, valExt
+//@ lemma lexUnsq: forallT(o, forallT(t, forallI(d, imp(o != nil && t != nil && published(o) && published(t) && 0 <= d && d <= rank(t) && unsqShape(o, t, d) && nelems(o) == nelems(t)
+//@                && forall(p, 0, nelems(t), flat(o, p) == flat(t, p)), forallJ(J, imp(inb(o, J), el(o, J) == el(t, del(J, d)))))))) @uses unsqVal, flatDef, valBound, prodShp, delInbUnsq, inbValid
+//@ lemma sqVal1: forallT(o, forallT(t, forallI(d, forallJ(J, imp(redShape(o, t, d) && dim(t, d) == 1 && 0 <= d && d < rank(t) && inb(o, J),
+//@                val(upd(ins(J, d, 0), 0-1, 0), shp(t), rank(t)) == val(del(upd(ins(J, d, 0), 0-1, 0), d), del(shp(t), d), rank(t) - 1)))))) @uses valDel
+//@ lemma sqVal: forallT(o, forallT(t, forallI(d, forallJ(J, imp(redShape(o, t, d) && dim(t, d) == 1 && 0 <= d && d < rank(t) && inb(o, J),
+//@                val(upd(J, 0-1, 0), shp(o), rank(o)) == val(upd(ins(J, d, 0), 0-1, 0), shp(t), rank(t))))))) @uses sqVal1, valExt
+//@ lemma insInbSq: forallT(o, forallT(t, forallI(d, forallJ(J, imp(redShape(o, t, d) && dim(t, d) == 1 && 0 <= d && d < rank(t) && inb(o, J), inb(t, ins(J, d, 0)))))))
+//@ lemma lexSq: forallT(o, forallT(t, forallI(d, imp(o != nil && t != nil && published(o) && published(t) && 0 <= d && d < rank(t) && redShape(o, t, d) && dim(t, d) == 1 && nelems(o) == nelems(t)
+//@                && forall(p, 0, nelems(t), flat(o, p) == flat(t, p)), forallJ(J, imp(inb(o, J), el(o, J) == el(t, ins(J, d, 0)))))))) @uses sqVal, flatDef, valBound, prodShp, insInbSq, inbValid
 
 /* ---------------- operators.go (dot / matmul / equals) ---------------- */
 
